@@ -135,35 +135,52 @@ package compile
 // made only after the current name has been added - so every activation on a call chain has a distinct
 // name and the chain is no longer than the number of names in the (finite) module set.
 //@ define featKey(m, n) = node_name(m) + ":" + node_name(n)
-//@ func (*Compiler).featureEnabled
-//@   assumed
-//@   modifies *
-//@   keeps map[string]bool
 //@ func (*Compiler).getModuleAndReference
 //@   assumed
 //@   modifies *
 //@   keeps map[string]bool
 //@   keeps map[string]parse.Node
 //@   preserves c.identities
-//@   ensures result0 != nil && result1 != nil
+//@   preserves c.featuresChecker
+//@   preserves c.verifiedFeatures.features
+//@   ensures result0 != nil && result1 != nil && result0 == ref_mod(m, n, targetType) && result1 == ref_node(m, n, targetType)
 //@ func (*Compiler).assertReferenceStatus
 //@   assumed
 //@   requires c != nil && src != nil && dst != nil
 //@   modifies *
+//@   preserves c.featuresChecker
+//@   preserves c.verifiedFeatures.features
 //@   keeps map[string]bool
 //@   keeps map[parse.Node]bool
 //@   preserves c.typedefChain
-//@ func (featuresMap).set
+//@ func (*featuresMap).set
+//@   requires f.features != nil
+//@   modifies mapof(f.features)
+//@ func (*Compiler).featureEnabled
+//@   requires c != nil
 //@   assumed
-//@   modifies *
-//@   keeps map[string]bool
+//@   ensures result == feat_on(c.featuresChecker, feature)
+// A feature is valid iff it is switched on and every feature named by its if-feature statements is valid, each
+// resolved (and its own dependencies resolved in turn) in the module that getModuleAndReference reports for it.
+//@ define iffs(n, k) = node_child_of(n, parse.NodeIfFeature, k)
+//@ define depsValid(chk, m, n, hi) = forall(k, 0, hi, feat_valid(chk, ref_mod(m, iffs(n, k), parse.NodeFeature), ref_node(m, iffs(n, k), parse.NodeFeature)))
+//@ axiom featValidDef = forallof(chk, FeaturesChecker, forallof(m, parse.Node, forallof(n, parse.Node, feat_valid(chk, m, n) ==
+//@        (feat_on(chk, featKey(m, n)) && depsValid(chk, m, n, node_nchildren_of(n, parse.NodeIfFeature))))))
 //@ func (*Compiler).isFeatureValid
-//@   requires c != nil && m != nil && n != nil && featTree != nil
+//@   uses featValidDef
+//@   requires c != nil && m != nil && n != nil && featTree != nil && c.verifiedFeatures.features != nil && c.verifiedFeatures.features != featTree
 //@   modifies *
+//@   preserves c.featuresChecker
+//@   preserves c.verifiedFeatures.features
+//@   preserves c.verifiedFeatures.features
 //@   ensures !old(inmap(featTree, featKey(m, n)))
 //@   ensures inmap(featTree, featKey(m, n)) && forallstr(k, implies(old(inmap(featTree, k)), inmap(featTree, k)))
+//@   ensures result == feat_valid(old(c.featuresChecker), m, n)
 //@   callsite inmap(featTree, featKey(m, n))
 //@   loop 0 invariant inmap(featTree, featKey(m, n)) && forallstr(k, implies(old(inmap(featTree, k)), inmap(featTree, k)))
+//@   loop 0 invariant c.featuresChecker == old(c.featuresChecker) && c.verifiedFeatures.features == old(c.verifiedFeatures.features)
+//@   loop 0 invariant len(looprange) == node_nchildren_of(n, parse.NodeIfFeature) && forall(i, 0, len(looprange), looprange[i] == iffs(n, i) && looprange[i] != nil)
+//@   loop 0 invariant enabled == (feat_on(old(c.featuresChecker), featKey(m, n)) && depsValid(old(c.featuresChecker), m, n, loopidx+1))
 
 //@ func (*Compiler).identityCheckCyclicRef
 //@   requires c != nil && assigned != nil && inmap(ids, name) && forallstr(k, implies(inmap(ids, k), ids[k] != nil))
